@@ -124,6 +124,9 @@ pub fn install_panic_hook() {
         let full = format!("{msg} @ {loc}");
         if verbose {
             eprintln!("[panic] {full}");
+            if std::env::var("ZV_VERBOSE").map(|v| v == "2").unwrap_or(false) {
+                eprintln!("{}", std::backtrace::Backtrace::force_capture());
+            }
         }
         LAST_PANIC.with(|p| *p.borrow_mut() = Some(full));
     }));
